@@ -24,6 +24,7 @@ RULE = ('complete competitions: (i) every decided state (finished / won / drawn)
         'that went through a jump-off; distinct by (cards, heights)')
 ASSUMPTIONS = ['jump-off continuations stay inside the rule-conforming sub-domain the property names (every live participant '
                'attempts or retires at each jump-off height before the bar moves; no pass in a jump-off)']
+RULE = RULE + '; one play in four hands the bar heights over as floats on 1 cm steps'
 
 BIBS = ['A', 'B', 'C', 'D']
 CELLS = ['o', 'xo', 'xxo', 'xxx', '-', 'x-', 'xx-', 'r', 'xr', 'xxr', '', 'x', 'xx']
